@@ -21,9 +21,28 @@ type fmtCase struct {
 }
 
 // further components a case's schema refers to
-var fmtExtra = map[string]map[string]string{"NullEmptyRef": {"NullEmpty": `{"type":"object","nullable":true}`}}
+var fmtExtra = map[string]map[string]string{
+	"NullEmptyRef": {"NullEmpty": `{"type":"object","nullable":true}`},
+	"SumBag": {
+		"Bag": `{"type":"object","required":["kind"],"properties":{"kind":{"type":"string"}},"additionalProperties":{"type":"string"}}`,
+		"Box": `{"type":"object","required":["kind","size"],"properties":{"kind":{"type":"string"},"size":{"type":"integer"}}}`,
+		"Pat": `{"type":"object","required":["kind"],"properties":{"kind":{"type":"string"}},"patternProperties":{"^x-":{"type":"integer"}}}`,
+	},
+}
 
 var fmtCases = []fmtCase{
+	// a discriminated sum whose variant has only the discriminator plus additional / pattern properties
+	{"SumBag", `{"type":"object","required":["v"],"properties":{"v":{"oneOf":[{"$ref":"#/components/schemas/Bag"},{"$ref":"#/components/schemas/Box"},{"$ref":"#/components/schemas/Pat"}],"discriminator":{"propertyName":"kind","mapping":{"bag":"#/components/schemas/Bag","box":"#/components/schemas/Box","pat":"#/components/schemas/Pat"}}}}}`,
+		[]string{`{"v":{"kind":"bag","x":"y","z":"w"}}`, `{"v":{"kind":"bag"}}`, `{"v":{"kind":"box","size":3}}`, `{"v":{"kind":"pat","x-a":1,"x-b":2}}`}},
+	// custom time layouts on optional / nullable / required members
+	{"TimeFmt", `{"type":"object","required":["req"],"properties":{
+		"req":{"type":"string","format":"date","x-ogen-time-format":"02/01/2006"},
+		"due":{"type":"string","format":"date","x-ogen-time-format":"02/01/2006"},
+		"at":{"type":"string","format":"date-time","nullable":true,"x-ogen-time-format":"2006-01-02 15:04:05"},
+		"tm":{"type":"string","format":"time","x-ogen-time-format":"3:04PM"},
+		"on":{"type":"string","format":"date-time","nullable":true,"x-ogen-time-format":"02 Jan 06 15:04 -0700"}}}`,
+		[]string{`{"req":"25/12/2001"}`, `{"req":"25/12/2001","due":"01/02/2003"}`, `{"req":"25/12/2001","at":"2001-12-25 10:11:12"}`, `{"req":"25/12/2001","at":null,"on":null}`,
+			`{"req":"25/12/2001","tm":"3:04PM"}`, `{"req":"25/12/2001","on":"25 Dec 01 10:11 +0530"}`, `{"req":"01/01/1970","due":"31/12/9999","at":"1969-12-31 23:59:59","tm":"12:00AM","on":"01 Jan 70 00:00 +0000"}`}},
 	// null through pointer-typed nullable members (fixed bde24270)
 	{"NullEmptyRef", `{"type":"object","properties":{"a":{"$ref":"#/components/schemas/NullEmpty"},"r":{"$ref":"#/components/schemas/NullEmpty"}},"required":["r"]}`,
 		[]string{`{"a":null,"r":null}`, `{"a":{},"r":{}}`, `{"r":null}`, `{"r":{}}`}},
@@ -46,7 +65,10 @@ var fmtCases = []fmtCase{
 	{"UnixTimes", `{"type":"object","properties":{
 		"s":{"type":"integer","format":"unix"},"s2":{"type":"integer","format":"unix-seconds"},"n":{"type":"integer","format":"unix-nano"},"u":{"type":"integer","format":"unix-micro"},"m":{"type":"integer","format":"unix-milli"},
 		"ss":{"type":"string","format":"unix"},"sn":{"type":"string","format":"unix-nano"},"sm":{"type":"string","format":"unix-milli"}}}`,
-		[]string{`{"s":1700000000}`, `{"s":0}`, `{"s":-1}`, `{"s2":1700000000}`, `{"n":1700000000123456789}`, `{"u":1700000000123456}`, `{"m":1700000000123}`, `{"ss":"1700000000"}`, `{"sn":"1700000000123456789"}`, `{"sm":"1700000000123"}`, `{"m":-1}`, `{"n":-1}`}},
+		[]string{`{"s":1700000000}`, `{"s":0}`, `{"s":-1}`, `{"s2":1700000000}`, `{"n":1700000000123456789}`, `{"u":1700000000123456}`, `{"m":1700000000123}`, `{"ss":"1700000000"}`, `{"sn":"1700000000123456789"}`, `{"sm":"1700000000123"}`, `{"m":-1}`, `{"n":-1}`,
+			// far from the epoch (UnixNano is undefined there, the other units are not) and the zero time.Time
+			`{"s":32503680000}`, `{"s2":32503680000}`, `{"m":32503680000000}`, `{"u":32503680000000000}`, `{"ss":"32503680000"}`, `{"sm":"32503680000000"}`,
+			`{"s":-62135596800}`, `{"m":-62135596800000}`, `{"u":-62135596800000000}`, `{"s":253402300799}`, `{"m":-1500}`, `{"u":-1500}`, `{"m":-999}`, `{"u":-1}`}},
 	{"SumUnix", `{"type":"object","required":["v"],"properties":{"v":{"oneOf":[{"type":"integer","format":"unix"},{"type":"boolean"}]}}}`,
 		[]string{`{"v":1700000000}`, `{"v":true}`, `{"v":0}`}},
 	{"SumUnixMilli", `{"type":"object","required":["v"],"properties":{"v":{"oneOf":[{"type":"integer","format":"unix-milli"},{"type":"array","items":{"type":"string"}}]}}}`,
